@@ -143,7 +143,7 @@ def main():
         path = f"{C.REPLAY}/{prop}-{n}.json"
         json.dump({"property": prop, "kind": "failing-input", "class": cls, "record": f,
                    "broken": [b[0] for b in broken],
-                   "replay_cmd": f"{C.VH} replay {prop} {path}"}, open(path, "w"), indent=1)
+                   "replay_cmd": f"python3 {C.ROOT}/run/replay.py {path}"}, open(path, "w"), indent=1)
         lines.append(f"VIOLATION property={prop} replay={path}")
         if n >= 5:
             break
